@@ -214,7 +214,7 @@ func TestVerifyReplay(t *testing.T) {
 		}
 		detail := map[string]interface{}{"evidence": ln.E, "pool_height": ln.L, "max_age_blocks": mb, "max_age_dur": md.String(),
 			"spec": ln.R, "spec_reason": ln.W, "real": class, "real_error": ec, "mutations": ln.N,
-			"legend": "vote = [validator, index 0 right/1 wrong, height, round, type, block, sig (k: key k, 0 junk, -9 empty, -1..-6 stale)]; evidence = [a, b, power, total, time ticks]"}
+			"legend": "vote = [validator, index 0 right/1 wrong, height, round, type, block, sig (k: key k, 0 junk, -9 empty, -1..-6 stale, -11 high-s twin of the genuine signature, -12 with v+4, -13 with a trailing byte)]; evidence = [a, b, power, total, time ticks]"}
 		// the exported VerifyDuplicateVote with the real validator set of the evidence height
 		if h := ln.E.A[2]; h >= 1 && uint64(h) <= f.W.S.Top && (ln.C != "ok" || ln.B) {
 			if vs, err := f.Ref.Store.LoadValidators(uint64(h)); err == nil {
